@@ -288,6 +288,15 @@ def check(case):
                         ok = False
                         break
                     r.states += 1
+                    try:  # read-only accessors between the fits of a chain must not matter
+                        s.get_support(indices=True)
+                        s.get_support()
+                        if hasattr(s, "get_select_distance"):
+                            s.get_select_distance()
+                    except Exception as e:
+                        r.fail("accessor-crash:%s" % type(e).__name__, "schedule %s leg %d: %r" % (sched, li, e))
+                        ok = False
+                        break
                     ref = cold[nn]
                     got = [int(i) for i in s.selected_idx_]
                     want = [int(i) for i in ref.selected_idx_]
